@@ -178,8 +178,19 @@ def run(ck):
                     "#if FOO ||%s\nmodule M\n#endif\n", "module M%s\nstruct S {%sa: int32%s}\n", "module M\n[x::a(%sb,%s\"c\")] struct S {}\n", "module M\n///%s@param%sx:%sy\ninterface I { op(x: bool) }\n",
                     "module M\nstruct S { tag(%s1%s) a: bool? }\n"]:
             forms.append(tpl.replace("%s", w))
+    # directives cut short at the end of their line, and long non-ASCII tokens where none is expected (what the error message has to quote)
+    for d in ["#if ", "#if", "#if A &&", "#if A && ", "#if (", "#if !", "#define", "#define\t", "#undef ", "#elif ", "#if A ||\t", "#else x", "#endif x", "# ", "#"]:
+        forms.append("module M\n" + d + "\nstruct S {}\n")
+        forms.append(d + "\n")
+        forms.append("module M\n" + d)
+    for k in range(40, 56):
+        long_ = "a" * (k % 3) + "é" * k
+        forms += ["module M\nstruct S { a: \"%s\" }\n" % long_, "module M\nstruct S { a:\n/// %s\nint32 }\n" % long_, "module M\nstruct %s {}\n" % long_, "module \"%s\"\n" % long_,
+                  "module M\n[x::a(\"%s\" \"%s\")] struct S {}\n" % (long_, long_), "module M\nstruct S {} /// %s" % long_, "module M\ninterface I { op() -> \"%s😀\" }\n" % long_]
+    # every form once more with CRLF line ends (diagnostics are also rendered with their snippets by the harness)
+    forms += [t.replace("\n", "\r\n") for t in forms if len(t) < 400 and "\r" not in t]
     o3 = core.run_impl("diags", ["diags - " + hx(t) for t in forms], chunk=200, timeout=120)
-    ck.stream("forms", description="every Unicode white-space character (and zero-width look-alikes, NUL) at every gap of every preprocessor directive and of ordinary source; every inheritance and containment graph over three definitions; 17 doc comment bodies (links in overviews and in every tag, tags that do not fit, unterminated and empty links) on 13 kinds of element; every type form (primitive, optional, sequence, dictionary, result, struct/enum/interface/custom/alias names, global, unknown, module name, nested, attributed, malformed) in every type position "
+    ck.stream("forms", description="all forms with LF and with CRLF line ends, diagnostics rendered with snippets; directives cut short at the end of their line; long non-ASCII tokens in unexpected places; every Unicode white-space character (and zero-width look-alikes, NUL) at every gap of every preprocessor directive and of ordinary source; every inheritance and containment graph over three definitions; 17 doc comment bodies (links in overviews and in every tag, tags that do not fit, unterminated and empty links) on 13 kinds of element; every type form (primitive, optional, sequence, dictionary, result, struct/enum/interface/custom/alias names, global, unknown, module name, nested, attributed, malformed) in every type position "
               "(field, base, second base, underlying type, alias target, dictionary key/value, parameter, return tuple, enumerator field, tagged, compact, streamed, element, link); containment/alias/inheritance cycles; "
               "every program of three aliases over {name, sequence, dictionary, result} x {A, B, C, int32} (4096, exhaustive); malformed and boundary integer literals in every literal position; mixed-width and CRLF doc comments; deep nesting (300), long lists (3000), long chains (300-400), unterminated constructs")
     for t, oo in zip(forms, o3):
